@@ -140,7 +140,10 @@ class C14(Prop):
     design_ref = "DESIGN.md §6 C14, §7 findings 2, 3"
     # translator tie (DESIGN II.7): to_stream / to_future — the channel observers and the poll functions of the receiving
     # side, from the compiler-expanded source; with `future_outcome_*`: what to_future resolves to for EVERY history
-    tie_modules = {"RxModel.GenTie.Conversions": []}
+    tie_modules = {"RxModel.GenTie.Conversions": [],
+                   # transcription pins (DESIGN II.7, weakest tie): the token text of the hand-transcribed files is the one the model was made from
+                   "RxModel.GenTie.PinsConvert": [],
+    }
     rule = ("bounded-exhaustive: kind in {to_future, to_stream, collect+to_future, complete_status} x "
             "flavor {local, threads} x source script (0..k distinct items, then complete / error / neither; "
             "k = 3 quick, 4 thorough) x every subset of the gaps before/between/after the source events "
